@@ -258,6 +258,10 @@ pub enum Job {
     /// the boundary of a legitimate packet: exactly 127/128/129 inputs (the sender pushes the new input before it tests for
     /// more than 128 pending ones, so 129 is the largest packet that is really sent), of minimal, ordinary and maximal size
     RoundTripBoundary { seed: u64 },
+    /// very long runs in the run-length layer (run headers of 3, 4 and 5 varint bytes): sequences whose XOR deltas are one
+    /// single 0xFF run (every input the bitwise complement of the previous one, 65535 bytes each, so that even the length
+    /// prefixes are 0xFF), one single 0x00 run, or one single literal run without any 0x00/0xFF byte
+    RoundTripLongRuns,
 }
 impl Job {
     fn id(&self) -> String {
@@ -267,6 +271,7 @@ impl Job {
             Job::RoundTripSmall { alphabet, max_len, max_seq, shard, .. } => format!("rt-small-a{}-l{max_len}-s{max_seq}-{shard}", alphabet.len()),
             Job::RoundTripRandom { seed, .. } => format!("rt-random-{seed}"),
             Job::RoundTripBoundary { seed } => format!("rt-boundary-{seed}"),
+            Job::RoundTripLongRuns => "rt-long-runs".to_string(),
         }
     }
 }
@@ -438,6 +443,34 @@ pub fn run_job(j: &Job) -> Outcome {
             }
             out.nontrivial = out.counters.get("round_trips_where_the_run_length_layer_compressed").copied().unwrap_or(0) > 0;
         }
+        Job::RoundTripLongRuns => {
+            out.sample = json!({"job": j.id(), "what": "sequences of 3, 9, 17, 40 and 129 inputs whose deltas form ONE run of the run-length layer: complements of 65535 bytes (a 0xFF run of up to 8.4 MB), alternating 0x11/0x22 fills of 65000 and 30000 bytes (a literal run without 00/FF bytes of up to 8.4 MB), and equal inputs of 0 bytes against an empty reference (a 0x00 run of prefixes)"});
+            'lr: for n in [3usize, 9, 17, 40, 129] {
+                // one 0xFF run: reference all zero, every input the complement of its predecessor
+                let reference = vec![0u8; 65_535];
+                let seq: Vec<Vec<u8>> = (0..n).map(|i| vec![if i % 2 == 0 { 0xFFu8 } else { 0x00 }; 65_535]).collect();
+                out.count("long_run_round_trips", 1);
+                if !round_trip_one(&reference, &seq, &mut out) {
+                    break 'lr;
+                }
+                // one literal run: no delta byte and no prefix byte is 0x00 or 0xFF
+                for len in [65_000usize, 30_000] {
+                    let reference = vec![0x33u8; len];
+                    let seq: Vec<Vec<u8>> = (0..n).map(|i| vec![if i % 2 == 0 { 0x11u8 } else { 0x22 }; len]).collect();
+                    out.count("long_run_round_trips", 1);
+                    if !round_trip_one(&reference, &seq, &mut out) {
+                        break 'lr;
+                    }
+                }
+                // one 0x00 run: empty inputs against an empty reference (only zero prefixes)
+                let seq: Vec<Vec<u8>> = (0..n).map(|_| vec![]).collect();
+                out.count("long_run_round_trips", 1);
+                if !round_trip_one(&[], &seq, &mut out) {
+                    break 'lr;
+                }
+            }
+            out.nontrivial = true;
+        }
         Job::RoundTripBoundary { seed } => {
             let mut r = Rng::new(*seed);
             out.sample = json!({"job": j.id(), "what": "sequences of exactly 1, 2, 127, 128 and 129 inputs (129 = the largest packet a sender really emits) of 0, 1, 4, 255, 256 and 65535 bytes: all-zero, all-FF, random, and alternating-length inputs, against empty / equal-length / longer references"});
@@ -514,6 +547,7 @@ pub fn check(ctx: &Ctx) -> i32 {
         jobs.push(Job::RoundTripRandom { seed: ctx.seed ^ (0xC140000 + k), count: if ctx.quick() { 300 } else { 3000 }, max_inputs: 129, max_len: 300 });
     }
     jobs.push(Job::RoundTripBoundary { seed: ctx.seed ^ 0xB0DA });
+    jobs.push(Job::RoundTripLongRuns);
     let jobs: Vec<Job> = jobs.into_iter().filter(|j| ctx.only_case.as_ref().is_none_or(|o| *o == j.id())).collect();
     let res = par_run(ctx, &jobs, &|j: &Job| j.id(), &run_job);
     let mut extra = Map::new();
@@ -524,7 +558,7 @@ pub fn check(ctx: &Ctx) -> i32 {
     extra.insert("allocation_bound".into(), json!(format!("peak live growth during one decode <= 64 KiB + 16 x (|data| + {LEGIT_MAX}) bytes; a single request above 256 MiB is refused and reported")));
     let meta = Meta {
         level: "exploration",
-        rule: "round trip: decode(r, encode(r, seq)) == Ok(seq) for exhaustive small spaces (see exhaustive_subspaces) and random large ones (up to 129 inputs - the largest packet a sender emits - of up to 65535 bytes, a fifth of them with exactly 128 or 129 inputs, plus a boundary job with exactly 1/2/127/128/129 inputs of 0/1/4/255/256/65535 bytes, zero/FF runs, near-copies, varying lengths, references shorter/longer than the inputs). Totality: decode is run under a counting allocator in child processes on exhaustive small byte strings and on random, mutated-genuine, varint-boundary, run-length-bomb and dangling-continuation strings; any panic, abort, refused allocation or peak live growth above the bound is a violation. Non-trivial: round-trip jobs in which the run-length layer actually compressed; totality jobs in which strings passed the run-length layer and reached the delta layer. Distinct: job (disjoint sub-space or PRNG stream).".into(),
+        rule: "round trip: decode(r, encode(r, seq)) == Ok(seq) for exhaustive small spaces (see exhaustive_subspaces) and random large ones (up to 129 inputs - the largest packet a sender emits - of up to 65535 bytes, a fifth of them with exactly 128 or 129 inputs, plus a boundary job with exactly 1/2/127/128/129 inputs of 0/1/4/255/256/65535 bytes and a long-runs job (3..129 inputs whose deltas form one single 0xFF / 0x00 / literal run of up to 8.4 MB, i.e. run headers of up to 4 varint bytes), zero/FF runs, near-copies, varying lengths, references shorter/longer than the inputs). Totality: decode is run under a counting allocator in child processes on exhaustive small byte strings and on random, mutated-genuine, varint-boundary, run-length-bomb and dangling-continuation strings; any panic, abort, refused allocation or peak live growth above the bound is a violation. Non-trivial: round-trip jobs in which the run-length layer actually compressed; totality jobs in which strings passed the run-length layer and reached the delta layer. Distinct: job (disjoint sub-space or PRNG stream).".into(),
         assumptions: vec!["the codec entry points are reached through the verif-hooks re-export".into(), "peak live growth is measured by the harness's counting allocator (thread-local pointer table)".into(), "held on the inputs tried; exhaustive only where stated".into()],
         floor_nontrivial: if ctx.quick() { 30 } else { 150 },
         exhaustive: None,
